@@ -111,3 +111,56 @@ def must_pass(mir, through_blocks, to_blocks):
 
 def return_blocks(mir):
     return [i for i, b in enumerate(mir["blocks"]) if b["term"].get("t") == "return" and not b.get("cleanup")]
+
+
+# ------------------------------------------------------------------------------------------------ ordered effects on the typed tree
+
+import tir as _tir
+
+
+def ordered_calls(node, pred, guards=()):
+    """Calls matching `pred` in evaluation order, each with the stack of enclosing conditions:
+       [(guards, call)] where guards = ((kind, text, polarity), ...); kind in if/iflet/match/loop."""
+    out = []
+    n = node
+    if not isinstance(n, dict):
+        return out
+    k = n.get("k")
+    if k in ("Call", "MethodCall"):
+        for c in _tir.call_args(n):
+            out += ordered_calls(c, pred, guards)
+        if n.get("f") is not None:
+            out += ordered_calls(n["f"], pred, guards)
+        if pred(n):
+            out.append((guards, n))
+        return out
+    if k == "If":
+        c = n["cond"]
+        out += ordered_calls(c, pred, guards)
+        cs = _tir.strip(c)
+        if cs.get("k") == "LetCond":
+            g = ("iflet", "%s = %s" % (_tir.pat(cs["pat"]), _tir.place(cs["init"]) or _tir.pretty(cs["init"])[:60]))
+        else:
+            g = ("if", _tir.pretty(c)[:80])
+        out += ordered_calls(n["then"], pred, guards + ((g[0], g[1], True),))
+        if n.get("else"):
+            out += ordered_calls(n["else"], pred, guards + ((g[0], g[1], False),))
+        return out
+    if k == "Match":
+        out += ordered_calls(n["scrut"], pred, guards)
+        for a in n["arms"]:
+            g = ("match", "%s ~ %s" % (_tir.pretty(n["scrut"])[:50], _tir.pat(a["pat"])), True)
+            out += ordered_calls(a.get("guard"), pred, guards + (g,))
+            out += ordered_calls(a["body"], pred, guards + (g,))
+        return out
+    if k in ("Loop", "For"):
+        if k == "For":
+            out += ordered_calls(n["iter"], pred, guards)
+        out += ordered_calls(n["body"], pred, guards + (("loop", _tir.sp(n), True),))
+        return out
+    if k == "Closure":
+        out += ordered_calls(n["body"], pred, guards + (("closure", _tir.sp(n), True),))
+        return out
+    for c in _tir.children(n):
+        out += ordered_calls(c, pred, guards)
+    return out
